@@ -203,6 +203,15 @@ class Summary:
             return a[1]
         if a[0] == 'name' and t[2] == 'self.accept_any':
             return ('any', table_role(self.ctx.repo, self.mod, a[1]))
+        # TABLE[<token accepted before>]: a constant pairing table read with a token id that the comparisons on the path have narrowed to one key
+        if a[0] == 'sub' and a[1][0] == 'name' and is_call(a[2], 'self.accept_any') and self.mod.has_assign(a[1][1]):
+            key = self._narrow(a[2], None)
+            try:
+                table = fold_expr(self.ctx.repo, self.mod, ast.Name(id=a[1][1], ctx=ast.Load()))
+            except Undecided:
+                table = None
+            if isinstance(key, str) and isinstance(table, dict) and isinstance(table.get(key), str):
+                return table[key]
         raise Undecided(f'{self.qn}: token argument of {show(t)} is not a literal or a named table')
 
     def shape(self, t: T.Any) -> T.Any:
